@@ -62,6 +62,11 @@ def coroutines():
 H = W = 4
 
 
+def label_frame_height(idx):
+    """labelled frames come from videos of different sizes: odd frame indices are taller (each record must carry ITS OWN original size)"""
+    return H if idx % 2 == 0 else H + 2
+
+
 class FakeVideo:
     def __init__(self, n, fail):
         self.n, self.fail, self.shape = n, fail, (n, H, W, 1)
@@ -80,7 +85,7 @@ class _LF:
     def image(self):
         if self.frame_idx == self._fail:
             raise IOError("read failure")
-        return np.full((H, W, 1), self.frame_idx % 251, dtype=np.uint8)
+        return np.full((label_frame_height(self.frame_idx), W, 1), self.frame_idx % 251, dtype=np.uint8)
 
 
 class FakeLabels:
@@ -146,6 +151,8 @@ def simulate(kind: str, start: int, end: int, Q: int, B: int, fail: int, sched: 
     P.pipeline.frame_buffer = None
     P.inference_model = lambda ex: [{"frame_idx": ex["frame_idx"], "pixel": ex["image"].reshape(ex["image"].shape[0], -1)[:, 0] * 255.0, "orig_size": ex["orig_size"]}]
     P.preprocess_config = {"batch_size": B, "scale": 1.0, "is_rgb": False, "max_stride": 1, "max_height": None, "max_width": None}
+    if kind == "labels":  # frames of different sizes are size-matched to a common 6x6 so that they can share a batch
+        P.preprocess_config["max_height"] = P.preprocess_config["max_width"] = H + 2
     P.instances_key = False
     P.preprocess = False
     P._convert_tensors_to_numpy = lambda o: o
@@ -239,8 +246,14 @@ def verdict(kind: str, start: int, end: int, Q: int, B: int, fail: int, sched: L
     if idxs != exp + [None]:
         return False, f"delivered {idxs}, expected {exp} then exactly one end marker"
     for d in delivered[:-1]:
-        if tuple(int(v) for v in d["orig_size"].tolist()) != (H, W):
-            return False, "wrong original size"
+        want = (label_frame_height(int(d["frame_idx"])), W) if kind == "labels" else (H, W)
+        if tuple(int(v) for v in d["orig_size"].tolist()) != want:
+            return False, f"frame {int(d['frame_idx'])} delivered with original size {tuple(int(v) for v in d['orig_size'].tolist())}, its own is {want}"
+    for o in out:
+        for fi, osz in zip(o["frame_idx"], o["orig_size"]):
+            want = (label_frame_height(int(fi)), W) if kind == "labels" else (H, W)
+            if tuple(int(v) for v in osz.tolist()) != want:
+                return False, f"record of frame {int(fi)} carries original size {tuple(int(v) for v in osz.tolist())}, its own is {want}"
     got = [int(i) for o in out for i in o["frame_idx"]]
     if got != exp:
         return False, f"records {got}, expected {exp}"
